@@ -17,11 +17,12 @@
   (Spec/Lift.lean: `expectedDeser` = constructor ∘ `liftDoc`): it
   is evaluated by the driver on every case as the oracle for the real Deserializer; its agreement
   with `deserialize` is proved on the exact fragment (`deserialize_exact_partial`: scalars, enums,
-  Array/Deque/Tuple (uniqueItems over plain scalars), nested classes, any depth) and checked by correspondence
-  elsewhere.
+  Array/Deque/Tuple (uniqueItems over plain scalars), Set of strings, Map from strings, Optional, NoneField, nested
+  classes and StructureReference, any depth) and checked by correspondence elsewhere.
 -/
 import TypedpyModel.Lemmas.DeserErr
 import TypedpyModel.Lemmas.LiftEquiv
+import TypedpyModel.Lemmas.RoundTripX
 namespace Typedpy.C06
 open Typedpy
 
@@ -117,7 +118,7 @@ theorem deserialize_exact_partial (O : Oracles) (opts : DeserOpts) (c : ClassOpt
     deserialize O opts (.struct c fields defaults) d = .ok x
       ↔ expectedDeser O opts (.struct c fields defaults) d = some x := by
   simp only [exactDecl, and_true_iff] at hex
-  obtain ⟨⟨⟨_, _⟩, hnd⟩, hef⟩ := hex
+  obtain ⟨⟨_, hnd⟩, hef⟩ := hex
   have hnd' : (fields.map (·.1)).Nodup := by simpa using hnd
   cases d with
   | dict kvs =>
@@ -257,6 +258,188 @@ theorem exact_optional_example :
       | .error _ => true | _ => false) = true
     ∧ (expectedDeser exO {} exOptCls (.dict [(.str "o", .int (-1)), (.str "xs", .list [])])).isNone = true
     ∧ (expectedDeser exO {} exOptCls (.dict [(.str "xs", .list [.int 3])])).isNone = true := by
+  decide
+
+/-- StructureReference and NoneField inside the exact fragment: an inline class (with its own undeclared-key
+    policy) nested in an array, next to a field that only admits None; the nested object is validated by
+    the inline class; an undeclared key inside a closed inline class is rejected (model and specification alike)
+    when the flags keep it, and dropped when they drop it -/
+def exInlineCls : FieldDecl :=
+  .struct { name := "H", required := ["pts"], addl := false, accepts := ["H"] }
+    [("pts", .seqOf .list (.struct { name := "StructureReference_1", required := ["x"], addl := false, inline := true }
+                [("x", .integer { min := some ⟨0, 1⟩ }), ("tag", .string none none none)] []) {}),
+     ("nothing", .noneF)] []
+
+theorem exact_inline_example :
+    exactDecl exInlineCls = true
+    ∧ strictJson (.dict [(.str "pts", .list [.dict [(.str "x", .int 3)], .dict [(.str "x", .int 0), (.str "tag", .str "")]])]) = true
+    ∧ (match deserialize exO {} exInlineCls
+          (.dict [(.str "pts", .list [.dict [(.str "x", .int 3)], .dict [(.str "x", .int 0), (.str "tag", .str "")]])]) with
+      | .ok (.inst "H" [("pts", .list [.inst "StructureReference_1" [("x", .int 3)],
+                                       .inst "StructureReference_1" [("x", .int 0), ("tag", .str "")]])]) => true
+      | _ => false) = true
+    ∧ (match expectedDeser exO {} exInlineCls
+          (.dict [(.str "pts", .list [.dict [(.str "x", .int 3)], .dict [(.str "x", .int 0), (.str "tag", .str "")]])]) with
+      | some (.inst "H" _) => true | _ => false) = true
+    ∧ (match deserialize exO { keepUndefined := true, ignoreInvalidAddl := false } exInlineCls
+          (.dict [(.str "pts", .list [.dict [(.str "x", .int 3), (.str "zz", .int 1)]])]) with
+      | .error _ => true | _ => false) = true
+    ∧ (expectedDeser exO { keepUndefined := true, ignoreInvalidAddl := false } exInlineCls
+          (.dict [(.str "pts", .list [.dict [(.str "x", .int 3), (.str "zz", .int 1)]])])).isNone = true
+    ∧ (match deserialize exO {} exInlineCls (.dict [(.str "pts", .list [.dict [(.str "x", .int 3), (.str "zz", .int 1)]])]) with
+      | .ok (.inst "H" [("pts", .list [.inst "StructureReference_1" [("x", .int 3)]])]) => true | _ => false) = true
+    ∧ (match deserialize exO {} exInlineCls (.dict [(.str "pts", .list []), (.str "nothing", .int 0)]) with
+      | .error _ => true | _ => false) = true
+    ∧ (expectedDeser exO {} exInlineCls (.dict [(.str "pts", .list []), (.str "nothing", .int 0)])).isNone = true := by
+  decide
+
+/-! ### the extension kinds (Sem/SerdeX.lean): DecimalNumber, Enum by value, DateField / DateTime -/
+
+
+/-- a successful deserialization of a class over the extension kinds is the constructor applied to
+    some keyword arguments -/
+theorem xdeserialize_goes_through_constructor (XO : XOracles) (opts : DeserOpts) (cls : XDecl)
+    (d x : PyVal) (h : deserializeX XO opts cls d = .ok x) :
+    ∃ kw, constructX XO cls kw = .ok x := by
+  unfold deserializeX at h
+  cases cls with
+  | struct c fields =>
+    cases d with
+    | dict kvs =>
+      simp only [deserX, PyVal.isNone, Bool.false_and, Bool.false_eq_true, if_false] at h
+      rcases dClassRef_dict_ok kvs _ _ _ x h with ⟨kw, hk⟩
+      rcases bindE_eq_ok hk with ⟨args, _, h2⟩
+      exact ⟨args, by simpa [constructX] using h2⟩
+    | _ => simp at h
+  | _ => simp at h
+
+theorem c06_find_some {α} (p : α → Bool) : ∀ (l : List α) (a : α), l.find? p = some a → a ∈ l ∧ p a = true
+  | [], _, h => by simp at h
+  | b :: l, a, h => by
+    simp only [List.find?] at h
+    cases hp : p b with
+    | true => simp [hp] at h; subst h; exact ⟨by simp, hp⟩
+    | false =>
+      simp [hp] at h
+      have := c06_find_some p l a h
+      exact ⟨by simp [this.1], this.2⟩
+
+/-- **C06, Enum by value, "exactly the images"**: the Deserializer accepts a document value exactly when
+    it is hashable and `==` to the value of some member — whatever that value's truthiness — -/
+theorem enumVal_accepts_iff (XO : XOracles) (opts : DeserOpts) (cls : String)
+    (ms : List (String × PyVal)) (mx : Bool) (d : PyVal) :
+    (∃ y, deserX XO opts false (.enumVal cls ms mx) d = .ok y)
+      ↔ (unhashable d = false ∧ ∃ m ∈ ms, PyVal.pyEq d m.2 = true) := by
+  simp only [deserX, Bool.and_false, Bool.false_eq_true, if_false, dEnumVal, xFindByValue]
+  constructor
+  · rintro ⟨y, hy⟩
+    cases hu : unhashable d with
+    | true => simp [hu] at hy
+    | false =>
+      simp only [hu, Bool.false_eq_true, if_false] at hy
+      cases hf : ms.find? (fun m => PyVal.pyEq d m.2) with
+      | none => simp [hf] at hy
+      | some m =>
+        have := c06_find_some _ ms m hf
+        exact ⟨rfl, m, this.1, this.2⟩
+  · rintro ⟨hu, m, hm, hp⟩
+    cases hf : ms.find? (fun m => PyVal.pyEq d m.2) with
+    | none =>
+      have := (List.find?_eq_none.mp hf) m hm
+      simp [hp] at this
+    | some m' => exact ⟨.enumv cls m'.1, by simp [hu]⟩
+
+/-- … and what it returns is that member, which the constructor accepts unchanged -/
+theorem enumVal_result_is_member (XO : XOracles) (opts : DeserOpts) (cls : String)
+    (ms : List (String × PyVal)) (mx : Bool) (d y : PyVal)
+    (h : deserX XO opts false (.enumVal cls ms mx) d = .ok y) :
+    ∃ m ∈ ms, PyVal.pyEq d m.2 = true ∧ y = .enumv cls m.1
+      ∧ validateX XO (.enumVal cls ms mx) y = .ok y := by
+  simp only [deserX, Bool.and_false, Bool.false_eq_true, if_false, dEnumVal, xFindByValue] at h
+  cases hu : unhashable d with
+  | true => simp [hu] at h
+  | false =>
+    simp only [hu, Bool.false_eq_true, if_false] at h
+    cases hf : ms.find? (fun m => PyVal.pyEq d m.2) with
+    | none => simp [hf] at h
+    | some m =>
+      simp only [hf] at h
+      have hm := c06_find_some _ ms m hf
+      have hy : y = .enumv cls m.1 := by cases h; rfl
+      refine ⟨m, hm.1, hm.2, hy, ?_⟩
+      subst hy
+      have hc : (ms.map (·.1)).contains m.1 = true := by
+        simp only [List.contains_eq_mem, List.mem_map, decide_eq_true_eq]
+        exact ⟨m, hm.1, rfl⟩
+      simp only [validateX, vEnumVal, hc, beq_self_eq_true, Bool.and_self, if_true]
+
+/-- **C06, DecimalNumber**: the documented lifting of a JSON value is the value itself (the constructor
+    converts), and deserialize-then-construct IS construct: accepted exactly when the constructor
+    accepts, with the same stored Decimal, rejected with the same exception class otherwise -/
+theorem decimal_deser_exact (XO : XOracles) (opts : DeserOpts) (o : NumOpts) (d : PyVal) :
+    bindE (deserX XO opts false (.decimal o) d) (validateX XO (.decimal o)) = validateX XO (.decimal o) d := by
+  simp only [deserX, Bool.and_false, Bool.false_eq_true, if_false, validateX, dDecimal, sxDecimal]
+  cases hc : xConvDecimal d with
+  | error e => simp
+  | ok q => simp [xConvDecimal, PyVal.asNum]
+
+/-- **C06, DateField / DateTime**: likewise for every document value (a JSON document holds no date
+    object), provided `strptime` returns a value of the field's type -/
+theorem temporal_deser_exact (XO : XOracles) (opts : DeserOpts) (ty fmt : String) (ints : Bool) (d : PyVal)
+    (hd : ∀ t, d ≠ .opaque t)
+    (hp : ∀ s t, XO.parse ty fmt s = some t → xIsKind XO ty t = true) :
+    bindE (deserX XO opts false (.temporal ty fmt ints) d) (validateX XO (.temporal ty fmt ints))
+      = validateX XO (.temporal ty fmt ints) d := by
+  simp only [deserX, Bool.and_false, Bool.false_eq_true, if_false, validateX]
+  cases d with
+  | str s =>
+    simp only [vTemporal, dTemporal]
+    cases hps : XO.parse ty fmt s with
+    | none => simp
+    | some t => simp [vTemporal, hp s t hps]
+  | int i =>
+    simp only [vTemporal, dTemporal]
+    split <;> simp
+  | _ => first | (rename_i t; exact absurd rfl (hd t)) | simp [vTemporal, dTemporal]
+
+def exXO : XOracles :=
+  { base := exO, toFloat := fun q => q,
+    parse := fun _ _ s => if s == "2020-01-31" then some "date:2020-01-31" else none,
+    format := fun _ _ _ => "2020-01-31",
+    typeOf := fun t => if t == "date:2020-01-31" then "date" else "?" }
+
+def exLevel : XDecl := .enumVal "Level" [("OFF", .int 0), ("LOW", .int 1), ("HIGH", .int 2)] true
+def exTask : XDecl :=
+  .struct { name := "Task", required := ["priority"], accepts := ["Task"], addl := false }
+    [("priority", exLevel), ("levels", .seqOf .list exLevel), ("due", .opt (.temporal "date" "%Y-%m-%d" false)),
+     ("price", .decimal { min := some ⟨0, 1⟩ })]
+
+/-- non-vacuity, on the shape of a seeded change that went unnoticed: the document value 0 denotes the
+    FALSY member `Level.OFF` and is accepted (bare and as an array item); 7 is the value of no member
+    (ValueError), a list is unhashable (TypeError); `false == 0` finds the same member; a negative price
+    is converted by the deserializer and rejected by the constructor (ValueError), a date that does not
+    parse is a ValueError, a number for an Optional date matches no option (ValueError) and is a TypeError
+    for the bare field -/
+theorem xdeserialize_example :
+    (match deserializeX exXO {} exTask (.dict [(.str "priority", .int 0), (.str "levels", .list [.int 2, .int 0, .bool false])]) with
+      | .ok (.inst "Task" [("priority", .enumv "Level" "OFF"),
+            ("levels", .list [.enumv "Level" "HIGH", .enumv "Level" "OFF", .enumv "Level" "OFF"])]) => true
+      | _ => false) = true
+    ∧ (match deserializeX exXO {} exTask (.dict [(.str "priority", .int 7)]) with
+      | .error .valueErr => true | _ => false) = true
+    ∧ (match deserializeX exXO {} exTask (.dict [(.str "priority", .list [])]) with
+      | .error .typeErr => true | _ => false) = true
+    ∧ (match deserializeX exXO {} exTask (.dict [(.str "priority", .int 1), (.str "price", .int (-1))]) with
+      | .error .valueErr => true | _ => false) = true
+    ∧ (match deserializeX exXO {} exTask (.dict [(.str "priority", .int 1), (.str "price", .float ⟨5, 2⟩), (.str "due", .str "2020-01-31")]) with
+      | .ok (.inst "Task" [("priority", .enumv "Level" "LOW"), ("due", .opaque "date:2020-01-31"), ("price", .dec _)]) => true
+      | _ => false) = true
+    ∧ (match deserializeX exXO {} exTask (.dict [(.str "priority", .int 1), (.str "due", .str "2020-13-45")]) with
+      | .error .valueErr => true | _ => false) = true
+    ∧ (match deserializeX exXO {} exTask (.dict [(.str "priority", .int 1), (.str "due", .float ⟨3, 2⟩)]) with
+      | .error .valueErr => true | _ => false) = true
+    ∧ (match deserX exXO {} false (.temporal "date" "%Y-%m-%d" false) (.float ⟨3, 2⟩) with
+      | .error .typeErr => true | _ => false) = true := by
   decide
 
 end Typedpy.C06
